@@ -8,8 +8,8 @@ Conventions
     (the code can only make them non-negative); `colno` is an `Int` (a difference).
   * Exceptions are constructors of `Err`: `syntax msg` (ECMASyntaxError), `regexSyntax msg`
     (ECMARegexSyntaxError) with the exact message text, `internal kind` for the Python
-    exceptions that escape from partial operations (`tok.type` of `None` → "AttributeError",
-    `{'x':…,'u':…}[c]` → "KeyError", `failure[1]` / `list[-1]` of an empty list → "IndexError"),
+    exceptions that escape from partial operations (`list[-1]` of an empty list, `str[0]` of an
+    empty string → "IndexError"; Props.C12lex.lexer_no_internal: unreachable from `Lexer()` + `input`),
     `modelGap` when the model does not cover what the code would do (an unknown lexer rule;
     a negative `lexpos`, where Python would index from the end of the text), `outOfFuel`
     for the `while True` loop of `_token` (Props.C06.lexer_terminates: unreachable with the
@@ -171,8 +171,18 @@ def updateNewlineIdx (st : LexState) (lexpos : Nat) (value : List Char) : LexSta
 def isSeqChar (c : Char) : Bool :=
   ('0' ≤ c && c ≤ '9') || c == '-' || ('a' ≤ c && c ≤ 'f') || ('A' ≤ c && c ≤ 'F')
 
+/-- the message of the `Unterminated string literal` error: `repr_compat(value[:16].strip() + (value[16:] and '...'))` -/
+def unterminatedMsg (v : List Char) (lineno : Nat) (colno : Int) : Err :=
+  .syntax ("Unterminated string literal " ++
+    str (pyRepr (pyStrip (v.take 16) ++ (if (v.drop 16).isEmpty then [] else ['.', '.', '.']))) ++
+    " at " ++ toString lineno ++ ":" ++ toString colno)
+
 /-- `broken_string_token_handler` followed by the rest of `t_error`, called by ply with
-    `token.value = lexdata[pos:]`, `token.lineno = lexer.lineno`, `lexer.lexpos = pos`.  Always raises. -/
+    `token.value = lexdata[pos:]`, `token.lineno = lexer.lineno`, `lexer.lexpos = pos`.  Always raises.
+
+        failure = lexdata[position:position + 2]
+        if failure[:1] == '\\' and failure[1:] in ('x', 'u'):   # Invalid hexadecimal / unicode escape sequence
+        …                                                       # else: Unterminated string literal -/
 def tError (st : LexState) (pos : Nat) : Err :=
   let value := st.text.drop pos
   match colnoAt st pos with
@@ -185,32 +195,20 @@ def tError (st : LexState) (pos : Nat) : Err :=
       let position := pos + n
       let failure := (st.text.drop position).take 2
       match failure with
-      | f0 :: more =>
-        if f0 = '\\' then
-          match more with
-          | [] => .internal "IndexError"
-          | f1 :: _ =>
-            let kind : Option String :=
-              if f1 = 'x' then some "hexadecimal" else if f1 = 'u' then some "unicode" else none
-            match kind with
-            | none => .internal "KeyError"
-            | some type_ =>
-              -- re.match(r'\\[xu][0-9-a-f-A-F]*', lexdata[position:]).group()
-              let tail := (st.text.drop (position + 2)).takeWhile isSeqChar
-              let seq := f0 :: f1 :: tail
-              match colnoAt st1 position with
-              | .error e => e
-              | .ok c =>
-                .syntax ("Invalid " ++ type_ ++ " escape sequence '" ++ str seq ++ "' at " ++
-                  toString st1.lineno ++ ":" ++ toString c)
-        else
-          .syntax ("Unterminated string literal " ++
-            str (pyRepr (pyStrip (v.take 16) ++ (if (v.drop 16).isEmpty then [] else ['.', '.', '.']))) ++
-            " at " ++ toString st.lineno ++ ":" ++ toString colno)
-      | [] =>
-        .syntax ("Unterminated string literal " ++
-          str (pyRepr (pyStrip (v.take 16) ++ (if (v.drop 16).isEmpty then [] else ['.', '.', '.']))) ++
-          " at " ++ toString st.lineno ++ ":" ++ toString colno)
+      | [f0, f1] =>
+        if f0 = '\\' ∧ (f1 = 'x' ∨ f1 = 'u') then
+          -- type_ = {'x': 'hexadecimal', 'u': 'unicode'}[failure[1]]
+          let type_ : String := if f1 = 'x' then "hexadecimal" else "unicode"
+          -- re.match(r'\\[xu][0-9-a-f-A-F]*', lexdata[position:]).group()
+          let tail := (st.text.drop (position + 2)).takeWhile isSeqChar
+          let seq := f0 :: f1 :: tail
+          match colnoAt st1 position with
+          | .error e => e
+          | .ok c =>
+            .syntax ("Invalid " ++ type_ ++ " escape sequence '" ++ str seq ++ "' at " ++
+              toString st1.lineno ++ ":" ++ toString c)
+        else unterminatedMsg v st.lineno colno
+      | _ => unterminatedMsg v st.lineno colno
     | none =>
       match value with
       | [] => .internal "IndexError"      -- token.value[0]; ply never calls t_error at the end of input
@@ -418,7 +416,7 @@ def tokenLoop : Nat → LexState → Res (Option Token)
       if char ≠ '/' ∨ (nextChar = '/' ∨ nextChar = '*') then
         match getUpdateToken st with
         | .error e => .error e
-        | .ok (none, _) => .error (.internal "AttributeError")     -- tok.type with tok = None
+        | .ok (none, st1) => .ok (none, st1)                        -- if tok is None: return tok
         | .ok (some t, st1) =>
           if isMarker t.type then
             if isComment t.type then
